@@ -76,7 +76,11 @@ def remaining(ctx, o, ps: PassShape):
     fill = prog.func(S['fill'])
     calls = facts.calls_named(ps.f, fill.name)
     if not calls:
-        o.refute(ps.f, ps.f.node, fill.name, "the pass never books remaining work")
+        elsewhere = [f2 for f2 in prog.all_funcs() if f2 is not ps.f and f2 is not fill and facts.calls_named(f2, fill.name)]
+        if elsewhere:
+            o.undecided(ps.f, ps.f.node, fill.name, f"the fill loop is called from {elsewhere[0].qual}, not from the pass: a helper the rule does not follow")
+        else:
+            o.refute(ps.f, ps.f.node, fill.name, "the pass never books remaining work")
         return
     for c in calls:
         if len(c.args) < 5:
@@ -86,15 +90,30 @@ def remaining(ctx, o, ps: PassShape):
             o.refute(ps.f, c, c, "work is booked for another task than the one being scheduled")
         w = ps.ex.expand(c.args[4], ps.cfg.node_containing(c), stop={f"{ps.task}.estimate", f"{ps.task}.spent"})
         m = match(f"max({ps.task}.estimate - {ps.task}.spent, 0)", w) or match(f"max(0, {ps.task}.estimate - {ps.task}.spent)", w)
+        D = f"{ps.task}.estimate - {ps.task}.spent"
+        if not m:
+            # the clamp spelled as a conditional: `d if d > 0 else 0`, `0 if d < 0 else d` (>=, <= likewise)
+            for pat in (f"{D} if {D} > 0 else 0", f"{D} if {D} >= 0 else 0", f"0 if {D} < 0 else {D}", f"0 if {D} <= 0 else {D}",
+                        f"{D} if {ps.task}.estimate > {ps.task}.spent else 0", f"{D} if {ps.task}.estimate >= {ps.task}.spent else 0",
+                        f"0 if {ps.task}.spent > {ps.task}.estimate else {D}", f"0 if {ps.task}.spent >= {ps.task}.estimate else {D}",
+                        f"0 if {ps.task}.estimate < {ps.task}.spent else {D}", f"0 if {ps.task}.estimate <= {ps.task}.spent else {D}",
+                        f"max({D}, 0.0)", f"max(0.0, {D})"):
+                m = m or match(pat, w)
         if m:
             o.site(ps.f, c, f"remaining = {src(w)}")
+        elif sched_fill._unresolved(ps.f, w):
+            o.undecided(ps.f, c, c.args[4], f"remaining work is `{src(w)[:80]}`, which contains a term the rule cannot resolve")
         else:
             o.refute(ps.f, c, c.args[4], f"remaining work is `{src(w)[:80]}`; expected max(task.estimate - task.spent, 0)")
         cn = ps.cfg.node_containing(c)
         for attr, want in (('estimate', f"self.{S['default_estimate']}"), ('spent', '0')):
             fills = [x for x in ps.stores(attr) if x[3]['milestone'] is False and x[3]['leaf'] is True]
             if not fills:
-                o.refute(ps.f, ps.f.node, f'default {attr}', f"a missing {attr} of a leaf is never filled in before the subtraction")
+                vague = [x for x in ps.stores(attr) if x[3]['milestone'] is not True and x[3]['leaf'] is not False]
+                if vague:
+                    o.undecided(ps.f, vague[0][0], vague[0][0], f"task.{attr} is stored under conditions the rule cannot classify as 'leaf, not a milestone'")
+                else:
+                    o.refute(ps.f, ps.f.node, f'default {attr}', f"a missing {attr} of a leaf is never filled in before the subtraction")
                 continue
             for st, tgt, val, reg in fills:
                 if reg['is_none'].get(attr) is not True:
@@ -124,7 +143,10 @@ def only_leaves(ctx, o, ps: PassShape):
             bad.append('milestones')
         if reg['leaf'] is not True:
             bad.append('summary tasks')
-        if bad:
+        if bad and reg['other']:
+            o.undecided(ps.f, c, c, "the fill call is guarded by " + ', '.join(facts.cond_texts(reg['other']))[:100] +
+                        ": cannot tell whether " + ' and '.join(bad) + " are excluded")
+        elif bad:
             o.refute(ps.f, c, c, "work can be reserved for " + ' and '.join(bad))
         else:
             o.site(ps.f, c, "fill call region: not milestone, leaf")
@@ -134,7 +156,7 @@ def only_leaves(ctx, o, ps: PassShape):
             continue
         for c in facts.calls_named(f, fill.name):
             if f.cls == ps.S['cls']:
-                o.refute(f, c, c, "the fill loop is also called from outside the pass")
+                o.undecided(f, c, c, "the fill loop is also called from outside the pass (a helper the rule does not follow)")
 
 
 def backward_start(ctx, o, ps: PassShape):
@@ -150,7 +172,9 @@ def backward_start(ctx, o, ps: PassShape):
             fc = [a for a in args if isinstance(a, ast.Call) and isinstance(a.func, ast.Attribute) and unmangle(a.func.attr) == fill.name]
             rest = [a for a in args if a not in fc]
             where = (" when " + ", ".join(facts.cond_texts(conds))) if conds else ""
-            if len(fc) != 1:
+            if len(fc) != 1 and sched_fill._unresolved(ps.f, case):
+                o.undecided(ps.f, st, st, f"the start of a leaf is `{src(case)[:80]}`{where}, which contains a term the rule cannot resolve")
+            elif len(fc) != 1:
                 o.refute(ps.f, st, st, f"the start of a leaf is `{src(case)[:80]}`{where}: not bounded by the date the fill loop returns, "
                                        f"so reservations can lie before the returned start")
             elif any(not match(f"{ps.task}.start", a) for a in rest):
@@ -159,15 +183,43 @@ def backward_start(ctx, o, ps: PassShape):
                 o.site(ps.f, st, f"start = {src(case)[:70]}{where}")
 
 
+def _weakened(reg, pattern):
+    """a dominating condition `G or X` (true) whose disjunct G is the guard `pattern`: the statement also runs when the guard is
+    false and X holds.  Returns the disjunction or None"""
+    for t, pol in reg['other']:
+        core, p2 = t, pol
+        while isinstance(core, ast.UnaryOp) and isinstance(core.op, ast.Not):
+            core, p2 = core.operand, not p2
+        if isinstance(core, ast.BoolOp) and isinstance(core.op, ast.Or) and p2 and any(match(pattern, v) for v in core.values):
+            return core
+    return None
+
+
 def fixed_dates(ctx, o, ps: PassShape):
     for attr in ('start', 'end'):
         for st, tgt, val, reg in ps.stores(attr):
+            w = _weakened(reg, f"{ps.task}.milestone") if reg['milestone'] is None else None
+            if w is not None:
+                o.refute(ps.f, st, st, f"task.{attr} is written under `{src(w)[:90]}`: the milestone branch (which overwrites both dates) also runs "
+                                       f"for tasks that are not milestones, so a user-fixed {attr} is not kept")
+                continue
+            w = _weakened(reg, f"{ps.task}.{attr} is None") if reg['milestone'] is False and reg['is_none'].get(attr) is None else None
+            if w is not None:
+                o.refute(ps.f, st, st, f"task.{attr} is written under `{src(w)[:90]}`: also when the user fixed it ({attr} is not None)")
+                continue
             if reg['milestone'] is True:
+                continue
+            if reg['milestone'] is None and reg['other']:
+                o.undecided(ps.f, st, st, f"task.{attr} is written under " + ', '.join(facts.cond_texts(reg['other']))[:100] +
+                            ", which the rule cannot classify as milestone / non-milestone")
                 continue
             if reg['milestone'] is None:
                 o.refute(ps.f, st, st, f"task.{attr} is written outside the milestone / non-milestone split")
                 continue
             if reg['is_none'].get(attr) is True:
                 o.site(ps.f, st, f"task.{attr} written under `{attr} is None`")
+            elif reg['other'] and reg['is_none'].get(attr) is None:
+                o.undecided(ps.f, st, st, f"task.{attr} is written under " + ', '.join(facts.cond_texts(reg['other']))[:100] +
+                            f": cannot tell whether that implies `{attr} is None`")
             else:
                 o.refute(ps.f, st, st, f"task.{attr} is overwritten although the user may have fixed it (store not guarded by `{attr} is None`)")
